@@ -13,6 +13,7 @@ Correspondence / monitors, all against the real code in-process:
          vs Lean bp.gate; monitor = "accepted although the CRC over the received octets is wrong".
 '''
 import json
+import re
 
 from . import bp_gen as G
 
@@ -30,7 +31,7 @@ class Rx(object):
     def feed(self, data):
         ''' -> dict(decode_error, escaped, accepted, crc_fail, reenc) '''
         out = {'decode_error': None, 'escaped': None, 'accepted': False, 'crc_fail': None, 'reenc': None,
-               'subset': False, 'utf8': False, 'audit': []}
+               'subset': False, 'utf8': False, 'audit': [], 'text_slots': []}
         try:
             probe = self.R['Bundle'](data)
         except Exception as e:  # noqa
@@ -47,6 +48,7 @@ class Rx(object):
                 obs = G.real_observable(probe)
                 out['subset'] = G.in_subset(obs)
                 out['audit'] = G.reencoded_crc_audit(out['reenc'], obs)
+                out['text_slots'] = G.slot_text_audit(data, obs)
             except Exception as e:  # noqa
                 out['reenc'] = None
         G.agent_reset(self.agent)
@@ -184,11 +186,27 @@ def check_output(chk, rx, specs):
                 chk.corr_break('OUT-2: model CRC check rejects octets transmitted by the agent', rp)
 
 
-def judge_cases(chk, rx, data, cases, stream):
+def gate_requests(chk, cases):
+    own = {'dtn': b'//node/'.hex()}
+    return chk.driver([{'op': 'bp.gate', 'hex': c[2].hex(), 'own': own} for c in cases])
+
+
+def judge_batches(chk, rx, batches, stream):
+    ''' batches = [(valid octets, cases)]: one driver call for all of them (process start-up dominates) '''
+    flat = [c for _d, cases in batches for c in cases]
+    gates = gate_requests(chk, flat) if flat else []
+    k = 0
+    for data, cases in batches:
+        judge_cases(chk, rx, data, cases, stream, gates[k:k + len(cases)])
+        k += len(cases)
+    return len(flat)
+
+
+def judge_cases(chk, rx, data, cases, stream, gates=None):
     ''' cases = [(kind, bits-or-None, corrupted octets)] of the valid bundle `data`: run each through the real
     receive path and the model, apply the monitors '''
-    own = {'dtn': b'//node/'.hex()}
-    gates = chk.driver([{'op': 'bp.gate', 'hex': c[2].hex(), 'own': own} for c in cases])
+    if gates is None:
+        gates = gate_requests(chk, cases)
     for (kind, bits, bad), g in zip(cases, gates):
         r = rx.feed(bad)
         verdict, detail = G.octet_crc_verdict(bad)
@@ -235,12 +253,16 @@ def judge_cases(chk, rx, data, cases, stream):
                           'the agent accepted a bundle in which a block with a non-zero CRC type has no CRC value, a '
                           'value of the wrong length, or a value that is not the CRC of the block\'s own encoding '
                           '(independent bit-at-a-time CRC over the re-encoded block): %s' % r['audit'], replay)
+        if r['accepted'] and r['text_slots']:
+            replay['delta'] = r['delta']
+            replay['text_slots'] = r['text_slots']
+            chk.violation('C08:text-string-accepted-as-octets',
+                          'a corrupted bundle was accepted in which a byte-string field (block data / CRC value) arrived '
+                          'as a CBOR text string and was taken for the same octets (block, field): %s' % r['text_slots'], replay)
         # ----- correspondence with the model
         m_dec = bool(g.get('decoded'))
         if m_dec != (r['decode_error'] is None):
-            if m_dec and (g.get('flags', 0) & 2):
-                chk.count(stream + ':outside-model admin payload (opaque in the model) fails to parse')
-            elif not m_dec and g.get('raw') and r['decode_error'] is None:
+            if not m_dec and g.get('raw') and r['decode_error'] is None:
                 chk.count(stream + ':outside-model EID authority (non-ASCII or brackets: urlsplit NFKC / IPv6 checks)')
             elif m_dec and r['utf8']:
                 chk.count(stream + ':outside-model text string that is not UTF-8')
@@ -256,9 +278,6 @@ def judge_cases(chk, rx, data, cases, stream):
         m_fail = sorted(set(g.get('fail', [])))
         m_acc = g.get('seen') == 1
         if m_fail != r['crc_fail'] or m_acc != r['accepted']:
-            if (g.get('flags', 0) & 2) and g.get('reenc') != (r['reenc'].hex() if r['reenc'] else None):
-                chk.count(stream + ':outside-model re-encoding of a parsed admin record')
-                continue
             replay['lean'] = {k: g.get(k) for k in ('fail', 'seen', 'effects')}
             replay['real'] = {k: r[k] for k in ('crc_fail', 'accepted')}
             chk.corr_break(stream + ': CRC gate outcome differs between the agent and the model', replay)
@@ -279,7 +298,7 @@ def check_input(chk, rx, spec, bursts_per_pos, stride, budget=None):
         if src != OWN:
             rp0['baseline'] = {k: base[k] for k in ('decode_error', 'escaped', 'crc_fail', 'accepted')}
             chk.corr_break('IN: uncorrupted bundle is not accepted by the agent (monitor would be vacuous)', rp0)
-        return 0
+        return None
     chk.count('IN:baseline accepted')
     spans = protected_spans(data)
     pats = list(corruption_patterns(chk.rng, data, spans, bursts_per_pos, stride=stride))
@@ -293,8 +312,7 @@ def check_input(chk, rx, spec, bursts_per_pos, stride, budget=None):
     cases = [c for c in cases if not G.bomb_screen(c[2])]
     if nb != len(cases):
         chk.count('IN:not run: uint >= 2^17 in a byte-string slot (BstrField.m2i would allocate that many octets)', nb - len(cases))
-    judge_cases(chk, rx, data, cases, 'IN')
-    return len(cases)
+    return (data, cases)
 
 
 _D20_SEEN = {}
@@ -325,22 +343,34 @@ def d20_class(orig, bad, detail):
 
 
 def _ascii_crc_spec(rng, pct, ct):
-    ''' a small bundle in which the CRC octets of the payload block (type pct) and, when it has one, of
-    the primary block (type ct) are printable ASCII, i.e. valid UTF-8: then a CRC field whose CBOR
-    head says "text" instead of "bytes" still decodes '''
-    for _ in range(20000):
-        spec = {'primary': {'version': 7, 'flags': 0x40 if rng.random() < 0.5 else 0, 'crc_type': ct,
-                            'dest': ('dtn', '//node/' + G.gen_name(rng, 3)), 'src': ('ipn', [rng.randrange(1, 9999), 1]),
-                            'rpt': ('none',), 'time': rng.randrange(1, 2 ** 40), 'seq': rng.randrange(2 ** 16),
-                            'lifetime': 3600000, 'frag_off': 0, 'total_len': 0, 'crc': None},
-                'blocks': [{'type': 1, 'num': 1, 'flags': 0, 'crc_type': pct, 'crc': None, 'extra': None,
-                            'btsd': bytes(rng.randrange(256) for _ in range(rng.randrange(1, 12)))}],
-                'crc_mode': 'update'}
-        full = c02_with_crcs(spec)
-        vals = [full['blocks'][0]['crc']] + ([full['primary']['crc']] if ct else [])
-        if all(all(0x20 <= x < 0x7f for x in v) for v in vals):
-            return spec
-    return None
+    ''' a small bundle with a UTF-8 text payload in which the CRC octets of the payload block (type pct)
+    and, when it has one, of the primary block (type ct) are ASCII, i.e. valid UTF-8: then a field whose
+    CBOR head says "text" instead of "bytes" still decodes '''
+    def ascii_crc(items, t):
+        z = G.cb_head(4, len(items) + 1) + b''.join(items) + G.cb_bstr(bytes(2 * t))
+        return all(x < 0x80 for x in G.crc_octets(t, z))
+    text = rng.choice(['hello world', 'attack at dawn', 'x', 'ping 42', '{"k": 1}']).encode()
+    for _ in range(400):
+        btsd = text + G.gen_name(rng, rng.randrange(0, 6)).encode()
+        if ascii_crc([G.cb_uint(1), G.cb_uint(1), G.cb_uint(0), G.cb_uint(pct), G.cb_bstr(btsd)], pct):
+            break
+    else:
+        return None
+    dest = ('dtn', '//node/' + G.gen_name(rng, 3))
+    src = ('ipn', [rng.randrange(1, 9999), 1])
+    flags = 0x40 if rng.random() < 0.5 else 0
+    for _ in range(2000):
+        time, seq = rng.randrange(1, 2 ** 40), rng.randrange(2 ** 16)
+        items = [G.cb_uint(7), G.cb_uint(flags), G.cb_uint(ct), G.eid_cbor(dest), G.eid_cbor(src), G.eid_cbor(('none',)),
+                 G.cb_arr([G.cb_uint(time), G.cb_uint(seq)]), G.cb_uint(3600000)]
+        if not ct or ascii_crc(items, ct):
+            break
+    else:
+        return None
+    return {'primary': {'version': 7, 'flags': flags, 'crc_type': ct, 'dest': dest, 'src': src, 'rpt': ('none',),
+                        'time': time, 'seq': seq, 'lifetime': 3600000, 'frag_off': 0, 'total_len': 0, 'crc': None},
+            'blocks': [{'type': 1, 'num': 1, 'flags': 0, 'crc_type': pct, 'crc': None, 'extra': None, 'btsd': btsd}],
+            'crc_mode': 'update'}
 
 
 def c02_with_crcs(spec):
@@ -354,6 +384,7 @@ def check_crc_field_forms(chk, rx, n):
     octets, and fields a sender could put there (null, text, wrong length, empty). All must be dropped. '''
     rng = chk.rng
     done = 0
+    batches = []
     for k in range(n):
         spec = _ascii_crc_spec(rng, 1 + k % 2, [0, 2, 1][k % 3])
         if spec is None:
@@ -372,6 +403,11 @@ def check_crc_field_forms(chk, rx, n):
                 continue
             s, e = blk['items'][-1]
             w = 2 * ct
+            if 'type' in blk:
+                # the block data (UTF-8 valid text) with its byte-string head turned into a text-string head
+                bs = blk['items'][4][0]
+                cases.append(('btsd-head-bstr->tstr', [8 * bs + 5], flip_bits(data, [8 * bs + 5])))
+                cases.append(('btsd-head-burst', [8 * bs - 2, 8 * bs + 5], flip_bits(data, [8 * bs - 2, 8 * bs + 5])))
             cases.append(('crc-head-bstr->tstr', [8 * s + 5], flip_bits(data, [8 * s + 5])))
             for back in (1, 3, 4, 6, 9):
                 bits = [8 * s - back, 8 * s + 5]
@@ -384,8 +420,9 @@ def check_crc_field_forms(chk, rx, n):
                                ('crc-field-empty', G.cb_bstr(b'')), ('crc-field-undefined', b'\xf7'),
                                ('crc-field-false', b'\xf4')]:
                 cases.append((name, None, data[:s] + item + data[e:]))
-        judge_cases(chk, rx, data, cases, 'CRCFIELD')
+        batches.append((data, cases))
         done += 1
+    judge_batches(chk, rx, batches, 'CRCFIELD')
     chk.count('CRCFIELD:bundles', done)
 
 
@@ -470,6 +507,114 @@ def check_fragments(chk, n):
             if g.get('decoded') and g.get('fail') != []:
                 chk.corr_break('OUT-3: model CRC check rejects octets transmitted by the agent',
                                dict(rp, sent_hex=s.hex(), lean=g))
+
+
+def check_tx_steps(chk, n):
+    ''' OUT-4: TX-chain steps that change blocks after send_bundle has prepared the bundle: (a) a harness
+    step (order 15) standing for any application — replaces the payload data as an encryption would,
+    changes block flags, appends a CRC-bearing block, touches the primary block; (b) the repository's
+    own BPSec application with a BCB source association (COSE context, A256GCM key of the test data)
+    on the payload block. Every block handed to the convergence layer must carry the CRC of the
+    octets actually sent. '''
+    rng = chk.rng
+    R = G.real()
+    from bp.util import BundleContainer, ChainStep
+    from gi.repository import GLib
+    have_sec = False
+    try:
+        import bp.app.bpsec as appsec
+        from pycose.keys import SymmetricKey
+        have_sec = True
+    except Exception as e:  # noqa
+        chk.count('OUT-4:bpsec application not importable (%s)' % type(e).__name__)
+    mode = {'what': None}
+
+    def step(ctr):
+        what = mode['what']
+        if what is None:
+            return
+        pay = ctr.block_num(1)
+        if what == 'payload' and pay is not None:
+            d = pay.getfieldval('btsd') or b''
+            pay.setfieldval('btsd', bytes(x ^ 0x5a for x in d) + b'\x00' * 16)
+        elif what == 'flags' and pay is not None:
+            pay.setfieldval('block_flags', int(pay.getfieldval('block_flags')) ^ 1)
+        elif what == 'primary':
+            ctr.bundle.primary.setfieldval('lifetime', ctr.bundle.primary.getfieldval('lifetime') + 7)
+        elif what == 'add':
+            ctr.bundle.blocks.insert(0, R['CanonicalBlock'](type_code=193, crc_type=rng.choice([1, 2]), btsd=b'added'))
+            ctr.reload()
+        elif what == 'every':
+            for blk in ctr.bundle.blocks:
+                blk.setfieldval('block_flags', int(blk.getfieldval('block_flags')) | 0x10)
+
+    agent = G.boot_agent('dtn://txstep/', path='/txs')
+    agent._tx_chain.append(ChainStep(order=15, name='verif: a step altering blocks', action=step))
+    agent._tx_chain.sort()
+    if have_sec and 'bpsec' in agent._app:
+        try:
+            ctx = agent._app['bpsec'].get_context(appsec.BPSEC_COSE_CONTEXT_ID)
+            import os
+            key = SymmetricKey.decode(open(os.path.join(G.repo_root(), 'src', 'bp', 'test', 'data', 'key-ExampleA.4.cbor'), 'rb').read())
+            ctx.sym_key_store[key.kid] = key
+            secop = appsec.SecOperation(sec_type='bcb', role='source', priv_key_id=key.kid, content_iv=[])
+            assoc = appsec.SecAssociation(src_pat=re.compile('.*'), dst_pat=re.compile('dtn://secure/.*'), tgt_blk_types=[1],
+                                          templates=[secop])
+            ctx.sec_assoc.append(assoc)
+        except Exception as e:  # noqa
+            have_sec = False
+            chk.count('OUT-4:bpsec association not set up (%s)' % type(e).__name__)
+    else:
+        have_sec = False
+    whats = ['payload', 'flags', 'primary', 'add', 'every'] + (['bcb'] if have_sec else [])
+    sent_all = []
+    for k in range(n):
+        what = whats[k % len(whats)]
+        spec = G.gen_bundle(rng, 0, crc_mode='update', force_crc=True, max_time=2 ** 40, nblocks=rng.choice([0, 1, 2]), sec=False)
+        p = spec['primary']
+        p.update({'flags': rng.choice([0, 0x40, 0x4, 0x60000]), 'version': 7, 'time': max(1, p['time']),
+                  'lifetime': max(1, min(p['lifetime'], 2 ** 40)), 'frag_off': 0, 'total_len': 0,
+                  'crc_type': rng.choice([1, 2])})
+        p['dest'] = ('dtn', '//secure/svc') if what == 'bcb' else ('dtn', '//plain/svc')
+        pay = spec['blocks'][-1]
+        pay.update({'extra': None, 'crc_type': rng.choice([1, 2]), 'btsd': bytes(rng.randrange(256) for _ in range(rng.randrange(1, 60)))})
+        mode['what'] = None if what == 'bcb' else what
+        if what == 'bcb':
+            # the association consumes one content IV per encryption
+            secop.content_iv[:] = [bytes(rng.randrange(256) for _ in range(12))]
+        GLib.LOOP.sources.clear()
+        cl = G.agent_tx_route(agent, None)
+        err = None
+        try:
+            agent.send_bundle(BundleContainer(G.real_bundle(spec)))
+        except Exception as e:  # noqa
+            err = e
+        G.agent_run_idle(agent)
+        GLib.LOOP.sources.clear()
+        replay = {'stream': 'OUT-4', 'tx_step': what, 'spec': G.spec_json(spec), 'sent_hex': [s.hex() for s in cl.sent]}
+        chk.case(replay, sample=(k < 1))
+        chk.count('OUT-4:step=%s' % what)
+        if err is not None:
+            chk.count('OUT-4:send_bundle raised %s' % type(err).__name__)
+        if not cl.sent:
+            chk.count('OUT-4:nothing sent')
+        for s in cl.sent:
+            ok, detail = G.octet_crc_verdict(s)
+            if what == 'bcb':
+                chk.count('OUT-4:bcb present=%s' % any(b.get('type') == 12 for b in G.split_blocks(s)[1:]))
+            if not ok:
+                rp = dict(replay, verdict=detail, sent_hex=s.hex())
+                chk.violation('C08:transmit-crc-wrong', 'Agent.send_bundle handed octets to the CL in which a block CRC is not '
+                              'valid over the octets sent (a TX step "%s" changed the bundle after preparation): %s'
+                              % (what, detail), rp)
+            sent_all.append((replay, s))
+        chk.cov['traces_validated_against_impl'] += 1
+    mode['what'] = None
+    if sent_all:
+        gs = chk.driver([{'op': 'bp.gate', 'hex': s.hex(), 'own': {'dtn': b'//other/'.hex()}} for _rp, s in sent_all])
+        for (rp, s), g in zip(sent_all, gs):
+            if g.get('decoded') and g.get('fail') != []:
+                chk.corr_break('OUT-4: model CRC check rejects octets transmitted by the agent', dict(rp, sent_hex=s.hex(), lean=g))
 
 
 def d20_witness():
@@ -560,6 +705,7 @@ def run(chk):
     for k in range(0, len(specs), 500):
         check_output(chk, rx, specs[k:k + 500])
     check_fragments(chk, 40 if quick else 600)
+    check_tx_steps(chk, 36 if quick else 600)
     # ---- input
     check_d20(chk, rx)
     check_crc_field_forms(chk, rx, 6 if quick else 60)
@@ -567,20 +713,30 @@ def run(chk):
     total = 0
     i = 0
     tries = 0
+    pending = []
     t_start = chk.elapsed()
     while i < n_in and tries < 10 * n_in and chk.elapsed() - t_start < t_in:
         tries += 1
         spec = G.gen_bundle(rng, rng.randrange(512), crc_mode='update', force_crc=True, max_time=2 ** 47)
+        if spec['primary']['flags'] & 1:
+            # the reassembly step allocates the advertised total length at once: keep it small here
+            spec['primary']['total_len'] = min(spec['primary']['total_len'], 1 << 16)
+            spec['primary']['frag_off'] = min(spec['primary']['frag_off'], spec['primary']['total_len'])
         # keep corrupted inputs small enough to enumerate every bit
         if len(G.spec_rfc_bytes(spec)) > (150 if quick else 400):
             continue
         if G.eid_uri(spec['primary']['src']) == OWN:
             continue
-        n = check_input(chk, rx, spec, bursts_per_pos=(1 if quick else 3), stride=(3 if quick else 1),
-                        budget=(2500 if quick else 10000))
-        if n:
+        got = check_input(chk, rx, spec, bursts_per_pos=(1 if quick else 3), stride=(3 if quick else 1),
+                          budget=(2500 if quick else 10000))
+        if got:
             i += 1
-            total += n
+            pending.append(got)
+            if len(pending) >= 12:
+                total += judge_batches(chk, rx, pending, 'IN')
+                pending = []
+    if pending:
+        total += judge_batches(chk, rx, pending, 'IN')
     chk.count('IN:bundles', i)
     chk.notes.append('corruptions fed to the real receive path: %d' % total)
 
